@@ -460,6 +460,11 @@ func (cc *connectStreamingClientConn) Receive(msg any) error {
 		cc.duplexCall.SetError(serverErr)
 		return serverErr
 	}
+	// If the response body ended before we received the end-of-stream message,
+	// the stream was cut short: that's an error, not a clean end-of-stream.
+	if errors.Is(err, io.EOF) && !errors.Is(err, errSpecialEnvelope) {
+		err = errorf(CodeInternal, "protocol error: missing end-of-stream message: %w", io.ErrUnexpectedEOF)
+	}
 	// There's no error in the trailers, so this was probably an error
 	// converting the bytes to a message, an error reading from the network, or
 	// just an EOF. We're going to return it to the user, but we also want to
